@@ -36,6 +36,12 @@ CLAIMS = {
  "C07": ("structural necessary conditions: Store exactly under Stored ∧ AllowStore ∧ authorised (two-sided), once, for the message built for the request; TTL write set (retain marker / ttl option, two-sided); history Query exactly under AllowLoad, synchronous, with the subscribed ssid, channel window and last-or-1 limit; replay inside the handler and SUBACK after it; retention mapping in SSD.Store; replay contents are not decided",
          "trusts go/ssa; accessor purity",
          "static analysis: SSA guard cut-sets two-sided, write-set dataflow, argument provenance, no-goroutine / must-pass-through ordering"),
+ "C10": ("structural necessary conditions: lock discipline on the write queue with write+reset of the queue in one write-locked section; write-once linearity of listener.Conn.Write; every one of the 14 encoders hands its writer exactly one Write per path and uses it for nothing else; pooled buffer Get/deferred Put; size refusal before the fixed-buffer copy; websocket write under its mutex; no goroutine/channel hand-off anywhere on the publish-to-transport path; the arrival order itself is not decided",
+         "trusts go/ssa; atomicity of one Write on the underlying connection",
+         "static analysis: lockset dataflow, linearity (exactly-once) path analysis, use-set of the writer parameter, effect (go/send/select) scan"),
+ "C17": ("structural necessary conditions: write-queue rules of C10; sniffer replay window, advance-by-copied, record-exactly-when-sniffing, reset; serve rewinds before hand-off exactly on the matched path; websocket reader dropped exactly at io.EOF, next message only when none is current, data frames only, reads into the caller's buffer; chunking arithmetic for all inputs is not decided",
+         "trusts go/ssa; bytes.Buffer and gorilla/websocket contracts",
+         "static analysis: SSA guard cut-sets two-sided, store/argument provenance, dominance ordering, lockset dataflow"),
 }
 
 NOT_YET = "no sound structural rule implemented yet in this static-analysis framework (see DESIGN.md §4 for the clauses planned); behavioural clauses quantify over runtime values"
